@@ -27,8 +27,10 @@ CLAIMS = {
                 'Comparison filters `[?(@ inner OP number)]` (CmpParse.v, CmpAddr.v; all six operators, inner single-valued, any number spelling the '
                 'grammar accepts that strconv.ParseFloat — a parameter of the model — parses) are steps of the same theorem: kept are the members whose '
                 'value at inner is a number, float64 or json.Number alike, in that relation to the literal (for != the complement); negated existence '
-                'filters `[?(!@ inner)]` (NegFilt.v) keep the members from which inner reaches nothing. '
-                'Not a theorem for the other step kinds (string/bool/null/regex/path operands, negated comparisons, &&, ||, multi-name selectors, scripts): which AST a given text denotes (parser model vs '
+                'filters `[?(!@ inner)]` (NegFilt.v) keep the members from which inner reaches nothing; filters over a query in disjunctive form '
+                '`[?(b&&b||b&&b...)]` (QueryParse.v, QueryAddr.v; every b one of the three kinds, no blanks) keep the members for which some conjunction '
+                'has all its basic queries true. '
+                'Not a theorem for the other step kinds (string/bool/null/regex/path operands, negated comparisons, parenthesised sub-queries, blanks inside filters, multi-name selectors, scripts): which AST a given text denotes (parser model vs '
                 'real parser by tree dumps and through the API). Correspondence: generated paths x documents; the extracted '
                 'specification runs next to the model on every case (a model/spec difference is reported).',
         'note': NOTE_COMMON + EVAL_HYP + ' The specification states the library conventions explicitly (whole-match $ operands, both-absent rule of path == path).',
